@@ -275,6 +275,8 @@ macro_rules! big_int_det3x3 {
 /// Test whether `v` lies inside or outside the circumsphere around `a`, `b`,
 /// `c` and `d` using exact integer arithmetic.
 pub(crate) fn in_sphere_test_exact(a: &[i64], b: &[i64], c: &[i64], d: &[i64], v: &[i64]) -> f64 {
+    #[cfg(meshless_voro_verif)]
+    crate::verif::sched_point(crate::verif::SITE_EXACT_PREDICATE);
     let b = big_int!(b, a);
     let c = big_int!(c, a);
     let d = big_int!(d, a);
